@@ -106,10 +106,16 @@ class Tn:
             elif numpy.issubdtype(arr.dtype, numpy.integer):
                 kind = 'int'
 
+        shp = tuple(int(d) for d in arr.shape)
+
         def content(*idx):
-            v = arr[tuple(int(i) for i in idx)]
-            v = v.item()
-            return v
+            # total function (like an uninterpreted function): 0 outside the array, since the
+            # eager concrete `ite` evaluates both branches
+            idx = tuple(int(i) for i in idx)
+            for i, d in zip(idx, shp):
+                if i < 0 or i >= d:
+                    return 0
+            return arr[idx].item()
         return Tn.fresh([int(d) for d in arr.shape], content, kind, origin or ('param:' + name),
                         lib='torch' if is_t else 'np')
 
